@@ -807,7 +807,8 @@ def h_future_poll(ex, st, frame, t, nf, args, dty):
         body = coroutine_body(ex, fut.ty, fut)
         if body is None:
             raise Unsupported("coroutine body not found for " + fut.ty[:80])
-        if ex.inline(body) or getattr(ex, "inline_all_coroutines", False):
+        if ex.inline(body) or getattr(ex, "inline_all_coroutines", False) \
+                or re.sub(r"::\{closure#0\}$", "", body.name) in getattr(ex, "auto_inlined", ()):
             pin = Obj("Pin<&mut %s>" % fut.ty)
             pin.fields[(None, 0)] = where
             ex.push_frame(st, body, [pin, args[1]], t.dest, t.targets.get("return"))
@@ -1095,6 +1096,16 @@ def h_checked_add(ex, st, frame, t, nf, args, dty):
     a, b = args[0], args[1]
     ov = z3.Not(z3.BVAddNoOverflow(a.t, b.t, False))
     return [(none(dty), ov), (some(Sym(a.t + b.t, a.ty), dty), z3.Not(ov))]
+
+
+def h_checked_mul(ex, st, frame, t, nf, args, dty):
+    a, b = args[0], args[1]
+    w = a.t.size()
+    if a.ty.startswith("i"):
+        raise Unsupported("signed checked_mul")
+    wide = z3.ZeroExt(w, a.t) * z3.ZeroExt(w, b.t)
+    ov = z3.Extract(2 * w - 1, w, wide) != z3.BitVecVal(0, w)
+    return [(none(dty), ov), (some(Sym(a.t * b.t, a.ty), dty), z3.Not(ov))]
 
 
 def h_saturating_sub(ex, st, frame, t, nf, args, dty):
@@ -1406,6 +1417,7 @@ STD_SUMMARIES = [
     (r"^<(std::sync::|std::rc::|alloc::\w+::)?(Arc|Rc) as Clone>::clone$", h_arc_clone),
     (r"^<(std::option::)?Option as PartialEq>::(eq|ne)$", h_partial_eq),
     (r"^<impl AsRef as AsRef<.*>>::as_ref$", h_identity0),
+    (r"^(std::hint::|core::hint::)?must_use$", h_identity0),
     (r"^(std::result::)?Result::and_then$", h_result_and_then),
     (r"^(std::result::)?Result::map$", h_result_map),
     (r"^(std::result::)?Result::ok$", h_result_ok),
@@ -1432,6 +1444,7 @@ STD_SUMMARIES = [
     (r"^Vec::with_capacity$", h_vec_new),
     (r"^core::num::(<impl \w+>::)?checked_sub$", h_checked_sub),
     (r"^core::num::(<impl \w+>::)?checked_add$", h_checked_add),
+    (r"^core::num::(<impl \w+>::)?checked_mul$", h_checked_mul),
     (r"^core::num::(<impl \w+>::)?saturating_sub$", h_saturating_sub),
     (r"^<(std::borrow::)?Cow as AsRef<.*>>::as_ref$", h_cow_as_ref),
     (r"^<(std::borrow::)?Cow as (std::ops::)?Deref>::deref$", h_cow_as_ref),
